@@ -144,6 +144,26 @@ pub fn drive(d: &mut Driver)
 	d.bound("numeric boundary forms x suffixes x followers x 2 contexts", json!([nforms, c14::NUMERIC_SUFFIXES.len(), c14::NUMERIC_FOLLOWERS.len()]));
 	let jobs: Vec<Value> = (0..nforms).step_by(8).map(|lo| json!({"space": "numeric", "lo": lo, "hi": (lo + 8).min(nforms)})).collect();
 	d.phase("numeric boundary forms", jobs);
+	// every sequence of declarations (kinds x visibility, C17's space): header extraction and the
+	// header dump are only reached by well-formed modules with several declarations
+	let ndecl = crate::checks::c17::KINDS.len() * crate::checks::c17::FLAGS.len();
+	let dlen = if quick { 3 } else { 4 };
+	d.bound("declaration sequences (9 kinds x 3 visibilities): max declarations", json!(dlen));
+	let mut jobs = Vec::new();
+	jobs.push(json!({"space": "decls", "len": 0, "prefix": []}));
+	jobs.push(json!({"space": "decls", "len": 1, "prefix": []}));
+	for len in 2..=dlen
+	{
+		for a in 0..ndecl
+		{
+			jobs.push(json!({"space": "decls", "len": len, "prefix": [a]}));
+		}
+	}
+	d.phase("declaration sequences through lexer, parser, header extraction and all dumps", jobs);
+	let nq = c14::quoted_forms().len();
+	d.bound("closed quoted literals around every escape form, as a file and as a constant", json!(nq));
+	let jobs: Vec<Value> = (0..nq).step_by(64).map(|lo| json!({"space": "quoted", "lo": lo, "hi": (lo + 64).min(nq)})).collect();
+	d.phase("quoted literals around every escape form", jobs);
 
 	let mut jobs = Vec::new();
 	for len in 0..=ltok
@@ -300,6 +320,57 @@ pub fn work(spec: &Value, w: &mut WorkerCtx)
 						break;
 					}
 					idx[k] = 0;
+				}
+			}
+		}
+		"decls" =>
+		{
+			use crate::checks::c17;
+			use crate::model::grammar::{self, Layout};
+			let n = c17::KINDS.len() * c17::FLAGS.len();
+			let len = spec["len"].as_u64().unwrap() as usize;
+			let prefix: Vec<usize> = spec["prefix"].as_array().unwrap().iter().map(|x| x.as_u64().unwrap() as usize).collect();
+			let mut idx = vec![0usize; len];
+			for (k, p) in prefix.iter().enumerate()
+			{
+				idx[k] = *p;
+			}
+			let fixed = prefix.len();
+			loop
+			{
+				let module: Vec<grammar::Decl> = idx.iter().enumerate().map(|(i, s)| c17::make_decl(*s, i)).collect();
+				let text = if module.is_empty() { "\n".to_string() } else { grammar::render_module(&module, Layout::OneLine) };
+				w.result.transitions += 1;
+				let t = text.as_bytes();
+				judge(t, || json!({"text": text, "sig_hint": "declaration sequence"}), w, Some(true));
+				let mut k = len;
+				loop
+				{
+					if k == fixed
+					{
+						return;
+					}
+					k -= 1;
+					idx[k] += 1;
+					if idx[k] < n
+					{
+						break;
+					}
+					idx[k] = 0;
+				}
+			}
+		}
+		"quoted" =>
+		{
+			let forms = c14::quoted_forms();
+			for i in spec["lo"].as_u64().unwrap() as usize..spec["hi"].as_u64().unwrap() as usize
+			{
+				for (pre, post) in [("", ""), ("const K: []u8 = ", ";")]
+				{
+					let text = format!("{pre}{}{post}", forms[i]);
+					w.result.transitions += 1;
+					let t = text.as_bytes();
+					judge(t, || json!({"text": text}), w, None);
 				}
 			}
 		}
